@@ -21,6 +21,8 @@ def configs(tier, seed):
     for n, K, nq in sizes:
         for part in sup.partitions(n, 2, K):
             for branch in ("pre", "fn"):
+                if n >= 5 and branch == "fn":
+                    continue
                 cfgs.append(dict(n=n, K=K, nq=nq, part=list(part), branch=branch, weight=10 ** n * 4 ** nq,
                                  wstride=11 if n <= 3 else (197 if n == 4 else 9001)))
     # semi-supervised predict is inherited: exercised on a forest that contains unlabeled samples
